@@ -17,7 +17,7 @@ CHECKS = {
    note=L2_NOTE),
  "C16": dict(level="fault_enumeration", engine="l2", ref="§3 C16",
    technique="deterministic simulation with fault injection: shuttle schedule search over the real spill pool on a simulated disk with scripted write/flush/finish/create failures (position swept over the run), exactly-once + termination oracle",
-   text="Real spill_pool.rs + IPC writer/reader on SimDisk; writers are shuttle threads, the reader a shuttle future. Fault-free cases must deliver exactly the pushed batches (sequence for SPSC, multiset for MPSC) and reach end-of-stream only after the last writer's drop; cases with one scripted disk fault (k-th write/flush/finish/create, torn/sticky variants, k spread over the whole run) must never hang, duplicate, invent or corrupt batches, and must deliver everything acknowledged into other files.",
+   text="Real spill_pool.rs + IPC writer/reader on SimDisk; writers are shuttle threads, the reader a shuttle future. Fault-free cases must deliver exactly the pushed batches (sequence for SPSC, multiset for MPSC) and reach end-of-stream only after the last writer's drop; cases with one scripted disk fault (k-th write/flush/finish/create, torn/sticky variants, k spread over the whole run) must never hang, duplicate, invent or corrupt batches, and must deliver everything acknowledged into other files. In half of the fault-free single-writer cases the writer keeps its sink alive until the reader has delivered its batches, so a wake-up that only the last writer's drop would repair shows as a deadlock (the clause 'the reader is always woken when data becomes available').",
    note=L2_NOTE + " Disk is the in-memory SimDisk behind TempFileFactory/SpillFile/SpillWriter."),
  "C17": dict(level="exploration", engine="l2", ref="§3 C17",
    technique="deterministic simulation: model-based sequential histories plus shuttle schedule search over threads sharing reservations; reference model of pool totals, limits, fair shares, per-consumer and peak metrics",
@@ -31,28 +31,28 @@ def l1(level, ref, technique, text):
 CHECKS.update({
  "C10": l1("exploration", "§3 C10",
    "deterministic simulation: seeded task-schedule search over the real RepartitionExec with simulated sources/memory/disk; exactly-once by hidden row id, routing function and ordering oracles, quiescence invariants",
-   "Real RepartitionExec (round-robin, hash on 1-3 keys, preserve_order) over scripted input partitions, consumed by one simulated task per output, under memory pressure that forces spilled batches, tiny spill files, early drops of some outputs. Every input row must arrive exactly once at the output hash % n names (or at any output for round-robin), sorted where order is preserved; rows to dropped outputs are excused; afterwards no task, reservation, spill file or input stream may be left."),
+   "Real RepartitionExec (round-robin, hash on 1-3 keys, range on 1-3 keys with 0-7 split points incl. NULL split values, preserve_order) over scripted input partitions (incl. zero-row batches), consumed by one simulated task per output, under memory pressure that forces spilled batches, tiny spill files, early drops of some outputs. Every input row must arrive exactly once at the output hash % n names, at the output the split points select (checked against RangeExpr::evaluate as well), or at any output for round-robin, sorted where order is preserved; rows to dropped outputs are excused; afterwards no task, reservation, spill file or input stream may be left."),
  "C02": l1("exploration", "§3 C02",
    "deterministic simulation: seeded schedules x random semantic-neutral configurations x partitionings of the same SQL query through the real planner; differential oracle against baseline configuration or reference evaluator",
    "The property is an independence statement, so the oracle is differential: one generated query (joins, aggregates, sorts, windows, unions, subqueries) over generated tables split into 1-4 scripted partitions runs under a random configuration, 1-3 copies concurrently in one session, under a seeded task schedule; the result must equal the independent reference where one exists, else the single-partition default-configuration run."),
  "C05": l1("exploration", "§3 C05/C06/C08",
    "deterministic simulation: seeded schedules/partitionings/memory budgets of generated join queries through the real planner; nested-loop reference with SQL three-valued logic",
-   "Explores the environment dimension of the statement (arrival interleavings of both sides and sibling partitions, batching, partitioning, memory budget) for every join operator the planner can pick, against an independent nested-loop reference on small Int/Utf8 data. Not a claim about every key type."),
+   "Explores the environment dimension of the statement (arrival interleavings of both sides and sibling partitions, batching, partitioning, memory budget) for every join operator the planner can pick (hash collect-left/partitioned incl. perfect-hash and buffering knobs, sort-merge, nested-loop, piecewise-merge, cross; inner/outer/semi/anti/mark joins, NOT IN, INTERSECT/EXCEPT) plus SymmetricHashJoinExec at operator level over bounded scripted inputs (all join types, null equality, sliding-window filter with pruning, partitioned mode), against an independent nested-loop reference. Join keys are read through casts to Int64/Float64/Decimal/Boolean/Date32/Utf8/Dictionary/Utf8View/UInt16/Int8 in a third of the runs. Not a claim about every key type."),
  "C06": l1("exploration", "§3 C05/C06/C08",
    "deterministic simulation: seeded schedules/partitionings/memory budgets of generated aggregation queries; reference GROUP BY",
-   "Single, partial+final, repartitioned, skipped-partial, TopK and spilling aggregation strategies are selected by generated configuration and memory pressure; results are compared with a reference GROUP BY (count, sum, min, max, count distinct; DISTINCT; grouped top-k)."),
+   "Single, partial+final, repartitioned, skipped-partial, TopK and spilling aggregation strategies are selected by generated configuration and memory pressure; results are compared with a reference GROUP BY (count, sum, min, max, count distinct, FILTER clauses, first/last/nth_value and string_agg with ORDER BY, bool_and/or, min/max of strings, ROLLUP/CUBE/GROUPING SETS, HAVING, several DISTINCT aggregates, DISTINCT with and without LIMIT, grouped top-k with ties); a quarter of the tables are sorted and say so (ordered and partially ordered aggregation), the legacy and the migrated aggregate streams are both selected by configuration, key and value columns are read through casts to other types in a third of the runs."),
  "C08": l1("exploration", "§3 C05/C06/C08",
    "deterministic simulation: seeded schedules/partitionings/memory budgets of generated ORDER BY [LIMIT] queries; reference stable sort, exact sequence",
-   "In-memory, spilling (multi-level merge with tiny spill files) and sort-preserving-merge paths under seeded schedules; the exact output sequence must equal a reference sort with the requested direction/null placement and id tie-break, with LIMIT the exact prefix."),
+   "In-memory, spilling (multi-level merge with tiny spill files) and sort-preserving-merge paths under seeded schedules; the exact output sequence must equal a reference sort with the requested direction/null placement and id tie-break (one and two sort keys, LIMIT/OFFSET, UNION ALL under ORDER BY, window top-n through row_number/rank/dense_rank, LIMIT without order as any-n-of-the-result); tight-memory sorts (large batch size, merge fan-in 2-3, limits of a few KB) drive multi-level merges and the re-spilling of skewed runs; sort keys are read through casts to other types in a third of the runs."),
  "C18": l1("exploration", "§3 C18",
    "deterministic simulation with resource faults: bounded Greedy/FairSpill pools from 0 bytes to ample + noisy neighbour, simulated spill disk; oracle: expected rows or ResourcesExhausted, then release invariants",
-   "Generated queries of every spilling operator family under memory limits; the outcome must be the exact expected result or an error with ResourcesExhausted in its chain; never a panic, hang (watchdog = quiescence without completion) or wrong result; afterwards pool 0, no spill file, no live task."),
+   "Generated queries of every spilling operator family under memory limits (fixed steps and arbitrary byte values, a noisy neighbour that grows, shrinks or squeezes the free memory down to a few bytes for a while, merge fan-in 2-8); the outcome must be the exact expected result or an error with ResourcesExhausted in its chain; never a panic, hang (watchdog = quiescence without completion) or wrong result; afterwards pool 0, no spill file, no live task."),
  "C19": l1("fault_enumeration", "§3 C19",
    "deterministic simulation with cancellation injection: output stream dropped at swept points under seeded schedules; quiescence invariants (tasks, input streams, reservations, spill files)",
-   "The crash point is the drop of the result stream (before first poll, after 1..3 batches; merged or per-partition consumption). The simulator then runs to quiescence (virtual time) and requires that no background task is alive, every input stream is released, the pool is at 0 and no spill file exists."),
+   "Second clause (keeps yielding): endless always-ready inputs below RepartitionExec, below 11 query shapes planned by the real optimizer, and below operator-level plan shapes (coalesce over 1-3 partitions, limits, unions, filters, top-k, merges, exchanges) protected only by the EnsureCooperative rule. First clause: the crash point is the drop of the result stream (before first poll, after 1..3 batches; merged or per-partition consumption). The simulator then runs to quiescence (virtual time) and requires that no background task is alive, every input stream is released, the pool is at 0 and no spill file exists."),
  "C20": l1("fault_enumeration", "§3 C20",
    "deterministic simulation with fault injection: one scripted source error / source panic / spill-disk failure per run at a swept position, seeded schedules; oracle: error surfaces or result complete, no hang, release invariants",
-   "One fault per run, position swept by the generator; a fault counts once it fired. From then on the query must end with an error (or the injected panic re-raised) or with the complete expected result; a truncated success, a hang or a foreign panic is a violation; afterwards the C19 release invariants."),
+   "One fault per run, position swept by the generator (input error/panic at any step, a third of them under a bounded pool; UDF failure at row n; spill create/write/flush/finish failure at the k-th call, spill read failure anywhere in the run incl. intermediate merge passes; object-store GET/PUT/part/complete failures); a fault counts once it fired. From then on the query must end with an error (or the injected panic re-raised) or with the complete expected result; a truncated success, a hang or a foreign panic is a violation; afterwards the C19 release invariants."),
  "C21": dict(level="fault_enumeration", engine="l1+l2", ref="§3 C21", note=L1_NOTE + " Accounting histories run on the real DiskManager and real temp files; OS write failures come from RLIMIT_FSIZE (EFBIG). The concurrent part runs under L2 (shuttle).",
    technique="deterministic simulation with fault injection: model-based histories on the real DiskManager with OS write failures (RLIMIT_FSIZE) and limit rejections swept over write positions; IPC round trip through a chunking/Pending-injecting simulated disk under seeded schedules; shuttle schedules for concurrent writers",
    text="(a) mixed-type batch sequences (views, dictionaries, lists, structs, NULLs, slices, empty batches) x codecs x read-buffer sizes round-trip through the real spill writer/reader on SimDisk with seeded read chunking; (b) create/write/finish/clone/drop/set_limit histories on the real disk manager with EFBIG injected at a generated file size and limit rejections: after every step used_disk_space equals the acknowledged bytes of live files, never exceeds the limit after an admitted write, returns to 0, temp files disappear; (c) 2-3 concurrent writers under shuttle."),
@@ -67,13 +67,13 @@ CHECKS.update({
    "Histories of cache operations with the clock advanced by generated amounts around the TTL are compared operation by operation with a reference map (results, memory_used == sum of entries <= limit, len). Session-level histories rewrite, add and delete files between queries; every query planned when the cached listing cannot be valid any more (TTL expired on the simulated clock, table dropped, cache off) or is still current must answer for the current files, including answers taken from statistics."),
  "C50": l1("exploration", "§3 C50",
    "deterministic simulation of unbounded inputs: scripted prefix followed by an endless stream of fresh rows, seeded schedules; bounded liveness in steps (after both inputs produced 600 more batches) and safety against a reference evaluation of the prefix; planning-time rejection accepted",
-   "Query shapes over unbounded ordered inputs (filter, UNION ALL, LIMIT, bounded window, ordered GROUP BY, symmetric hash join; two blocking shapes that must be rejected) planned by the real optimizer. Everything determined by the prefix minus one batch of slack must be delivered once the inputs have gone on for 600 batches of fresh rows (keys spread over all partitions, values passing and failing the filter), everything delivered from the prefix must be correct, LIMIT must end the stream."),
+   "Query shapes over unbounded ordered inputs (filter, UNION ALL, LIMIT, bounded window, lag/lead, ordered GROUP BY and DISTINCT, symmetric hash join, partial sort on an ordered prefix, sort-preserving merge of two ordered inputs, ORDER BY the input order LIMIT n; three blocking shapes that must be rejected) planned by the real optimizer. Everything determined by the prefix minus one batch of slack must be delivered once the inputs have gone on for 600 batches of fresh rows (keys spread over all partitions, values passing and failing the filter), everything delivered from the prefix must be correct, LIMIT must end the stream."),
  "C53": l1("exploration", "§3 C53",
    "deterministic simulation: counting TapExec above every node of real optimizer-built plans under seeded schedules/configurations (incl. spilling); oracle: output_rows metric == rows forwarded for every fully consumed node",
    "The whole SQL corpus under random configurations and schedules; a transparent counting node above every operator; after complete consumption every operator all of whose partition streams reached end-of-stream must report output_rows equal to what its tap forwarded. Spill row metrics are not checked."),
  "C25": l1("exploration", "§3 C25",
    "deterministic simulation of the write path against a simulated object store: seeded request/part latencies (out-of-order multipart completion), seeded task schedules, seeded iteration order of the hive demuxer; oracle: reported count and read-back multiset equal the written rows",
-   "COPY TO / INSERT INTO through the real sinks for Parquet, CSV, NDJSON and Arrow, single file, directory and hive-partitioned targets with values that need escaping, soft_max_rows_per_output_file 1/3/unlimited, 1-4 parallel files and partitions. Immediately after the statement returns the count must equal the rows written and a fresh listing table with the written schema must read back exactly the written multiset. A claim about completion, assembly and path encoding under schedules and storage latency, on sampled data shapes."),
+   "COPY TO / INSERT INTO through the real sinks for Parquet, CSV, NDJSON and Arrow (Int64/Utf8 and, in half of the runs, Float64/Boolean/Date32/Decimal columns), single file, directory and hive-partitioned targets with values that need escaping, soft_max_rows_per_output_file 1/3/unlimited, 1-4 parallel files and partitions. Immediately after the statement returns the count must equal the rows written and a fresh listing table with the written schema must read back exactly the written multiset. A claim about completion, assembly and path encoding under schedules and storage latency, on sampled data shapes."),
 })
 
 NA = {
